@@ -24,7 +24,17 @@
 ; any other string is converted to NaN".  Kept abstract here; its lexical part is xp_is_number_lexeme.
 (declare-fun xp_str2num (String) F64)
 ; 4.2 string(number)
-(declare-fun xp_num2str_finite (F64) String)
+; "the number is represented in decimal form as a Number [no exponent] ... there should be as many more digits as are
+; needed to uniquely distinguish the number from all other IEEE 754 numeric values": the shortest decimal
+; representation that reads back as the same number, without exponent - shortest_decimal, which is also what
+; strconv.FormatFloat(x, 'f', -1, 64) is documented to produce (see externals.contracts).
+(declare-fun shortest_decimal (F64) String)
+(define-fun xp_num2str_finite ((x F64)) String (shortest_decimal x))
+(assert (forall ((x F64)) (! (=> (not (or (fp.isNaN x) (fp.isInfinite x)))
+   (and (not (str.contains (shortest_decimal x) "e")) (not (str.contains (shortest_decimal x) "E")) (not (str.contains (shortest_decimal x) "+"))))
+   :pattern ((shortest_decimal x)))))
+; strconv.FormatFloat prints a NaN as "NaN" (documentation of FormatFloat / fmt): the implementation relies on it
+(assert (forall ((x F64)) (! (=> (fp.isNaN x) (= (shortest_decimal x) "NaN")) :pattern ((shortest_decimal x)))))
 (define-fun xp_num2str ((x F64)) String
   (ite (fp.isNaN x) "NaN"
   (ite (fp.isZero x) "0"
